@@ -13,3 +13,17 @@ func init() {
 			c.Assume = append(c.Assume, "reflect.Int is 64 bits wide (linux/amd64); on a 32-bit target the Int -> Int64Codec row would be a finding")
 		})
 }
+
+func init() {
+	register("C11",
+		"Decides the structural preconditions of GC visibility: every runtime allocation/clear/copy/map call gets the real run-time type (GC-TYPED); no pointer is parked in a uintptr across a call or stored as an integer (GC-UINTPTR); the shadow structs and the stack map iterator match the layouts of the toolchain go.mod declares, and all ten linkname pulls resolve there with matching shapes (GC-SHADOW, GC-ITER, GC-LINKSIG); ReadFile's target is the caller's typed memory or a typed allocation (GC-TARGET); every codec's New returns a typed allocation layout-compatible with what its Read expects, or the sub-codec's New when Read forwards the pointer (PC-NEW); element storage is allocated with the element's own type (BT-ARR, BT-MAP). "+
+			"Not decided: equality of results under concurrent collection as a schedule property.",
+		func(c *Ctx) {
+			ruleGCTyped(c)
+			ruleGCUintptr(c)
+			ruleGCLink(c)
+			ruleGCTarget(c)
+			rulePCNew(c)
+			ruleBTArrMap(c)
+		})
+}
